@@ -165,7 +165,8 @@ func bitsFromASCII(p []byte) (WindowBits, bool) {
 	// Valid values are 8..15, that is, at most two decimal digits. Do not
 	// pass anything else to IntFromASCII(): it takes bytes 0x3A-0x3F as
 	// digits and wraps around on overflow.
-	if len(p) > 2 {
+	if len(p) > 2 || (len(p) == 2 && p[0] == '0') {
+		// Too long, or has a leading zero.
 		return 0, false
 	}
 	for _, c := range p {
